@@ -38,6 +38,7 @@ int main()
         DenseMatrix Dm = v8::restrict_square(Dbig, idx); // mirrored exp values work by position in the range
         std::ostringstream out;
         std::cerr << "case " << op << " N=" << N << " k=" << f["k"] << " d=" << f["d"] << " " << f["method"] << "\n";
+#ifndef V8_NO_ROUTINES
         if (op == "lap")
         {
             Neighbors nb = v8::parse_neighbors(f["nb"]);
@@ -51,7 +52,13 @@ int main()
             DenseMatrix T = compute_diffusion_matrix(idx.begin(), idx.end(), dcb, width);
             out << "ok=1 T=" << show_matrix(T);
         }
-        else if (op == "embed")
+        else
+#else
+        if (op == "lap" || op == "dm")
+            out << "unavailable=1";
+        else
+#endif
+        if (op == "embed")
         {
             const std::string method = f["method"];
             IndexType k = std::stoi(f["k"]), d = std::stoi(f["d"]), t = std::stoi(f["t"]);
